@@ -2,7 +2,7 @@
 """tools/import_seed.py <ID> <n> <dir> — copy a confirmed seeded change into /verif/seeded/<ID>-<n>/ and record which checks detect it"""
 import sys, os, shutil, json, subprocess, re
 pid, n, d = sys.argv[1], sys.argv[2], sys.argv[3]
-dst = '/verif/seeded/%s-%s' % (pid, n)
+dst = '/verif/seeded/%s-%s' % (pid, int(n) + int(os.environ.get('SEED_OFFSET', '0')))
 os.makedirs(dst, exist_ok=True)
 shutil.copy(os.path.join(d, 'bug%s.diff' % n), os.path.join(dst, 'patch.diff'))
 shutil.copy(os.path.join(d, 'demo%s.c' % n), os.path.join(dst, 'demo.c'))
